@@ -115,7 +115,7 @@ SELECTORS = {  # as written in configs -> (params, name used for alphabetical or
     'gin.singleton': (('constructor',), 'singleton')}
 FULL = sorted(SELECTORS)
 SCOPES = ['', '', 's', 'S', 's/t', 'T/s']
-MACROS = ['M', 'm', 'sc/M']
+MACROS = ['M', 'm', 'sc/M', 'include', 'import', 'from']   # statement keywords are legal macro names
 IMPORTS = ['import math', 'import os.path', 'from os import path', 'import json as js',
            'from xml.dom import minidom as md', 'import collections.abc']
 REF_TARGETS = ['gn', 'a.b.fn', 'mod.K', 's/gn', 'S/t/c.b.fn']
@@ -667,17 +667,18 @@ def check_case(case):
           got_keys.add(('macro', (s.scope + '/' if s.scope else '') + s.selector))
     require(got_keys == set(before), 'binding-set-after-round-trip',
             lambda: f'only in text {got_keys - set(before)}; missing {set(before) - got_keys}\n{s2}')
-    imports_before = [l for l in text.splitlines() if l.startswith(('import ', 'from '))]
-    imports_after = [l for l in s2.splitlines() if l.startswith(('import ', 'from '))]
+    is_imp = lambda l: bool(re.match(r'(import|from)\s+[A-Za-z_]', l))
+    imports_before = [l for l in text.splitlines() if is_imp(l)]
+    imports_after = [l for l in s2.splitlines() if is_imp(l)]
     require(imports_before == imports_after, 'imports-round-trip',
             lambda: f'{imports_before} vs {imports_after}')
 
   # ---- structure --------------------------------------------------------------------------
   lines = s1.splitlines()
-  first_non_import = next((i for i, l in enumerate(lines)
-                           if l and not l.startswith(('import ', 'from '))), len(lines))
-  require(not any(l.startswith(('import ', 'from ')) for l in lines[first_non_import:]),
-          'imports-not-first', s1)
+  # (a macro may be called `import` or `from`: `import = 1` is a macro definition, not an import)
+  is_import = lambda l: bool(re.match(r'(import|from)\s+[A-Za-z_]', l))
+  first_non_import = next((i for i, l in enumerate(lines) if l and not is_import(l)), len(lines))
+  require(not any(is_import(l) for l in lines[first_non_import:]), 'imports-not-first', s1)
   headers = [(i, l) for i, l in enumerate(lines)
              if l.startswith('# Parameters for ') or l == '# Macros:']
   if any(l == '# Macros:' for _, l in headers):
